@@ -1,7 +1,7 @@
 (* Extraction of the executable models to OCaml.  ExtrOcamlBasic only: bool, option, list,
    prod, unit, sumbool are mapped to OCaml's; N, positive, nat, Z stay the extracted datatypes. *)
 Require Import ExtrOcamlBasic.
-From SKV Require Import Params Base.Crc32 Codec.Wal Codec.WalInst Base.Lex Txn.WriteSet Spec.Store Spec.Cursor Spec.Machine Lsm.CompactKey Misc.Lock Misc.LockInst Txn.RangeIter Conc.Oracle Conc.CommitSeq Misc.OMap Misc.BptKey Misc.Pages Misc.BptInst Codec.IKey Codec.Separator Codec.Bloom Codec.Table Codec.Regions Codec.RegionsInst Crash.Fail Crash.FailParams Crash.FailInst Conc.Pipeline Conc.PipelineExplore Crash.Proto.
+From SKV Require Import Params Base.Crc32 Codec.Wal Codec.WalInst Base.Lex Txn.WriteSet Spec.Store Spec.Cursor Spec.Machine Lsm.CompactKey Misc.Lock Misc.LockInst Txn.RangeIter Conc.Oracle Conc.CommitSeq Misc.OMap Misc.BptKey Misc.Pages Misc.BptInst Codec.IKey Codec.Separator Codec.Bloom Codec.Table Codec.Regions Codec.RegionsInst Crash.Fail Crash.FailParams Crash.FailInst Conc.Pipeline Conc.PipelineExplore Crash.Proto Codec.VlogParams Codec.VlogPtr Lsm.Vlog Lsm.VlogInst.
 Extraction Language OCaml.
 Extraction "skv_model.ml"
   WalInst.wal_sessions WalInst.wal_read_all WalInst.wal_repair WalInst.wal_known_unparsed_tail WalInst.wal_params_ok WalInst.WB
@@ -33,4 +33,10 @@ Extraction "skv_model.ml"
   Params.TBL_FULL_FOOTER_LENGTH Params.VLOG_HEADER_SIZE Params.VLOG_VALUE_POINTER_SIZE
   Pipeline.pstep Pipeline.pinit Pipeline.prun_pos Pipeline.stutter Pipeline.env_label PipelineExplore.succs PipelineExplore.progress_succs
   PipelineExplore.safe_ok PipelineExplore.no_overflow_ok PipelineExplore.deadlocked PipelineExplore.in_flight PipelineExplore.panicking
-  Proto.proto_okb Proto.proto_err Proto.prun Proto.run_from Proto.papply Proto.okb Proto.viol Proto.recover Proto.do_crash Proto.st0 Proto.crash_safe_b Proto.recovery_plain Proto.okb_from Proto.dp Proto.dpr Proto.alive Proto.prefix_bound.
+  Proto.proto_okb Proto.proto_err Proto.prun Proto.run_from Proto.papply Proto.okb Proto.viol Proto.recover Proto.do_crash Proto.st0 Proto.crash_safe_b Proto.recovery_plain Proto.okb_from Proto.dp Proto.dpr Proto.alive Proto.prefix_bound
+  VlogPtr.vpointer_encode VlogPtr.vpointer_decode VlogPtr.vpointer_in_range VlogPtr.vloc_encode VlogPtr.vloc_decode VlogPtr.vloc_is_pointer VlogPtr.vloc_with_pointer
+  VlogPtr.vloc_inline VlogPtr.vloc_pointer_of VlogPtr.maybe_separate VlogPtr.vlog_params_ok VlogPtr.vheader_bytes VlogPtr.nlen
+  Vlog.vs0 Vlog.vs_cleanup Vlog.venc_classify Vlog.set_tables Vlog.min_oldest Vlog.table_oldest Vlog.find_file Vlog.find_table
+  VlogInst.vlogi_step VlogInst.vlogz_step VlogInst.vlogi_resolve VlogInst.vlogz_resolve VlogInst.vlogi_append VlogInst.vlogi_read VlogInst.vlogi_entry
+  VlogInst.vlogi_vs_append VlogInst.vlogi_vs_get VlogInst.vlogi_run VlogInst.vlogz_run
+  VlogParams.VP_SIZE VlogParams.VL_BIT_VALUE_POINTER VlogParams.VL_VERSION VlogParams.VP_VERSION VlogParams.VLOG_FORMAT_VERSION.
